@@ -562,14 +562,20 @@ impl<T: El> MapWorld<T> {
                     items2.push((start, (items[0].1 + 1) % VMOD));
                 }
                 let elems: Vec<(T, T)> = items2.iter().map(|&(a, b)| (Self::mkk(a), Self::mkv(b))).collect();
-                self.call(|m| m.extend(elems));
+                if op.k == OpK::ExtendOverlap && n % 2 == 1 {
+                    // a source that under-reports its length (lower bound 0): everything must still go in
+                    self.call(|m| m.extend(elems.into_iter().filter(|_| true)));
+                } else {
+                    self.call(|m| m.extend(elems));
+                }
                 for &(a, b) in &items2 {
                     self.r.insert(Self::lk(a), T::norm(b));
                     self.note_key(a);
                 }
             }
             OpK::ExtendRef => {
-                let n = op.arg as u32;
+                let n = (op.arg & 0xFF) as u32;
+                elem::EXT_VARIANT.with(|c| c.set((op.arg >> 8) as u8));
                 let items: Vec<(u32, u32)> = (k..k + n).map(|q| (q, nv(&self.r, Self::lk(q)))).collect();
                 let done = self.call(|m| T::extend_ref(m, &items));
                 if done {
